@@ -1190,8 +1190,9 @@ pub fn check_state(case: &StateCase, st: &mut Stats) -> Result<(), String> {
             st.count("announcements_mutated_at_wire_level", mutated);
             st.count("requests_sent_to_the_hostile_peer", asked.len() as u64);
             if !ok {
+                // a wall-clock wait: reported as inconclusive, never as a violation (a panic of a node task is caught above)
                 return Err(format!(
-                    "after hostile block-range announcements {:?} (acknowledged {acked}, refused {refused}) and the end of that connection, the node did not fetch blocks {first}..={last} from an honest peer within 10 s (it stores up to {}); connection handlers ended with {:?}",
+                    "INFRA: after hostile block-range announcements {:?} (acknowledged {acked}, refused {refused}) and the end of that connection, the node did not fetch blocks {first}..={last} from an honest peer within 10 s (it stores up to {}); connection handlers ended with {:?}",
                     case.anns.iter().map(|a| (a.0, a.1, a.2)).collect::<Vec<_>>(), mgr_a.queued().next().0, ended.lock().unwrap()
                 ));
             }
